@@ -1527,6 +1527,43 @@ brk("C05", "TEMPO back end rotates out with the untransposed superoperator", "E2
 # ---------------------------------------- raw tensors through a file (C05 E5)
 brk("C05", "import copies transformed tensors next to the transforms", "E5", _sub(
     PT, "                mpo = pt_file.get_mpo_tensor(step, transformed=False)", "                mpo = pt_file.get_mpo_tensor(step)"))
+# ---------------------------------------- lazily initialised attribute as a memo (C07 V9 / C20 A7)
+_LAZY = _multi(
+    _sub(SY, "        first_step = expm(self.liouvillian()*dt/2.0)\n        second_step = expm(self.liouvillian()*dt/2.0)\n",
+         "        if self._half_step is None:\n            self._half_step = expm(self.liouvillian()*dt/2.0)\n        first_step = self._half_step\n        second_step = self._half_step\n"),
+    _sub(SY, "        self._hamiltonian = _check_hamiltonian(hamiltonian)\n",
+         "        self._hamiltonian = _check_hamiltonian(hamiltonian)\n        self._half_step = None\n", count=1))
+brk("C07", "System keeps its first half-step propagator whatever the later dt", "V9", _LAZY)
+brk("C20", "System keeps its first half-step propagator whatever the later dt", "A7", _LAZY)
+
+# ---------------------------------------- layout-dependent flattening (C08 H6 / C20 A4)
+_RAVEL_K = _sub(GR, "        target_ndarray = target_derivative\n        target_ndarray = target_ndarray.reshape(hs_dim**2)\n",
+                "        target_ndarray = np.ravel(target_derivative, order='K')\n")
+brk("C08", "target derivative flattened in memory order", "H6", _RAVEL_K)
+brk("C20", "target derivative flattened in memory order", "A4", _RAVEL_K)
+
+# ---------------------------------------- chain weights (C10 I5)
+brk("C10", "last-bond weight promoted in an elif (two-site chain)", "I5", _sub(
+    SY, "            factor_l = 1 if i == 0 else 0.5\n            factor_r = 1 if i == len(self)-2 else 0.5\n",
+    "            factor_l, factor_r = 0.5, 0.5\n            if i == 0:\n                factor_l = 1.0\n            elif i == len(self)-2:\n                factor_r = 1.0\n"))
+ok("C10", "chain weights by two independent if statements", _sub(
+    SY, "            factor_l = 1 if i == 0 else 0.5\n            factor_r = 1 if i == len(self)-2 else 0.5\n",
+    "            factor_l, factor_r = 0.5, 0.5\n            if i == 0:\n                factor_l = 1.0\n            if i == len(self)-2:\n                factor_r = 1.0\n"))
+
+# ---------------------------------------- rotation with / without degeneracy reduction (C06 R3)
+brk("C06", "non-unique branch only: rotation skipped when degeneracy maps are used", "R3", _sub(
+    TB, """                tmp = dot(moveaxis(infl_four_legs, 1, -1),
+                        self._super_u_dagg)
+                tmp = moveaxis(tmp, -1, 1)
+                tmp = np.dot(tmp, self._super_u.T)
+                infl_four_legs = tmp
+""", """                if self._degeneracy_maps is None:
+                    tmp = dot(moveaxis(infl_four_legs, 1, -1),
+                            self._super_u_dagg)
+                    tmp = moveaxis(tmp, -1, 1)
+                    tmp = np.dot(tmp, self._super_u.T)
+                    infl_four_legs = tmp
+"""))
 ok("C11", "Gibbs: remaining steps via a temporary", _sub(
     TE, "        num_step = max(\n            0, self._parameters.n_steps - 1 - self._backend_instance.step)",
     "        done = self._backend_instance.step\n        last = self._parameters.n_steps - 1\n        num_step = max(0, last - done)"))
